@@ -88,13 +88,13 @@ Definition draw_iter (o : opts) (ps : list pixel) : W unit :=
 (* ---- fill_contiguous ---- *)
 (* TakeSkip over a list: alternately take `take` and skip `skip` elements. `fuel` bounds the
    recursion (length of the list suffices). *)
-Fixpoint take_skip (fuel : nat) (take skip : nat) (l : list Z) : list Z :=
+Fixpoint take_skip (fuel : nat) (take skip : Z) (l : list Z) : list Z :=
   match fuel with
   | O => []
   | S f =>
       match l with
       | [] => []
-      | _ => firstn take l ++ take_skip f take skip (skipn (take + skip) l)
+      | _ => firstnZ take l ++ take_skip f take skip (skipnZ (take + skip) l)
       end
   end.
 
@@ -109,18 +109,18 @@ Definition fill_contiguous (o : opts) (area : rect) (colors : list Z) : W unit :
       let ey := cast_u 16 bry in
       wdo count <- wlift (mul_u md 32 (rw inter) (rh inter));
       if rect_eqb inter area then
-        set_pixels o sx sy ex ey (firstn (Z.to_nat count) colors)
+        set_pixels o sx sy ex ey (firstnZ count colors)
       else
         wdo skip_y <- wlift (if ry inter >? ry area
                              then mul_u md 32 (Z.abs (ry inter - ry area)) (rw area) else Ok 0);
         wdo skip0 <- wlift (if rx inter >? rx area
                             then add_u md 32 skip_y (Z.abs (rx inter - rx area)) else Ok skip_y);
-        let colors' := skipn (Z.to_nat skip0) colors in
-        let take := Z.to_nat (rw inter) in
+        let colors' := skipnZ skip0 colors in
+        let take := rw inter in
         wdo skipr <- wlift (sub_u md 32 (rw area) (rw inter));
         set_pixels o sx sy ex ey
-          (firstn (Z.to_nat count)
-             (if (0 <? rw inter) then take_skip (S (length colors')) take (Z.to_nat skipr) colors' else []))
+          (firstnZ count
+             (if (0 <? rw inter) then take_skip (S (length colors')) take skipr colors' else []))
   end.
 
 (* ---- fill_solid / clear ---- *)
